@@ -130,12 +130,14 @@ def rnd(rng, shape, kind='real'):
 
 
 def rand_cores(rng, row_dims, col_dims, ranks, kind='real'):
-    """kind: real | complex | mixed (alternating real / complex cores)"""
+    """kind: real | complex | mixed (complex cores at even positions) | mixed1 (complex cores at odd positions, core 0 real)"""
     cores = []
     for i in range(len(row_dims)):
         k = kind
         if kind == 'mixed':
             k = 'complex' if i % 2 == 0 else 'real'
+        elif kind == 'mixed1':
+            k = 'complex' if i % 2 == 1 else 'real'
         cores.append(rnd(rng, (ranks[i], row_dims[i], col_dims[i], ranks[i + 1]), k))
     return cores
 
